@@ -23,14 +23,17 @@ LEVEL_TEXT = (
     "loops yield once per completed round; a loop that stops once a counter reaches k yields k only if every path"
     " that yields also counts - a path that yields without counting is followed to the end of the input; an "
     "except / else clause that swallows a failed creation without yielding makes the count fall short and is a "
-    "finding); (R2p) the parallel family, per class (an inherited iterate with overridden hooks is analysed "
-    "again): the slice boundaries are decided by a list-shape abstract interpretation (first / last element, "
-    "bounds, monotonicity through running sums, itertools.accumulate, clamps, concatenation, append loops, b[-1] "
-    "= k, conditions on b[-1]): consecutive pairs of one list that starts at 0, is non-decreasing, never passes "
-    "and ends exactly at target_size, computed from this call's arguments (no memo); every sub-step is asked for "
-    "end-start and empty slices contribute nothing, so the shares telescope to k for every weight vector; (R3) "
-    "the GP driver (and its helper methods) asks initializer and step for the configured population size. Does "
-    "not decide that the shares are proportional to the weights."
+    "finding); every leaf step's iterate is also interpreted on populations of 1..4 individuals for every k <= n "
+    "with the per-individual draw scripted both ways - a fully followed run that yields another number of "
+    "individuals is a finding, finding none decides nothing; (R2p) the parallel family, per class (an inherited "
+    "iterate with overridden hooks is analysed again): the slice boundaries are decided by a list-shape abstract "
+    "interpretation (first / last element, bounds, monotonicity through running sums, itertools.accumulate, "
+    "clamps, concatenation, append loops, b[-1] = k, conditions on b[-1]): consecutive pairs of one list that "
+    "starts at 0, is non-decreasing, never passes and ends exactly at target_size, computed from this call's "
+    "arguments (no memo); every sub-step is asked for end-start and empty slices contribute nothing, so the "
+    "shares telescope to k for every weight vector; (R3) the GP driver (and its helper methods) asks initializer "
+    "and step for the configured population size. Does not decide that the shares are proportional to the "
+    "weights."
 )
 
 ALLOW_SIZE = {
